@@ -92,7 +92,9 @@ def stream_cases(rep, tier, seed):
     tmp = H.subdir("c18files")
     n_ok = 0
     for k, (_, nf, recs, shifted, accept, header, prefix) in enumerate(rows):
-        base = os.path.join(tmp, "d%d" % k)
+        # the same file names are written again and again (every second dataset re-uses the previous paths): a conversion must
+        # replace whatever an earlier one left there
+        base = os.path.join(tmp, "d%d" % (k if k % 2 else 0))
         with open(base + ".dat", "wb") as f:
             f.write(pack(recs, nf, header, prefix))
         exp_X = [[float(np.float32(p / q)) for p, q in r[2]] for r in recs]
@@ -138,11 +140,12 @@ def stream_cases(rep, tier, seed):
                 if g[3] != want[3]:
                     rep.violation("convert/load/parse", "identifiers_not_preserved", ext, dict(rp, ext=ext, got=g[3], expected=want[3]))
         n_ok += 1
-        for ext in ("dat", "txt", "csv", "json"):
-            try:
-                os.remove(base + "." + ext)
-            except OSError:
-                pass
+        if k % 2:
+            for ext in ("dat", "txt", "csv", "json"):
+                try:
+                    os.remove(base + "." + ext)
+                except OSError:
+                    pass
         if k == 0:
             rep.sample({"dataset": recs, "expected_labels": shifted, "accept": accept})
     rep.cov["datasets_converted_loaded_parsed"] = n_ok
